@@ -100,8 +100,8 @@ def run(c):
     c.r2_arg("magic-bytes", MH, "grin_core::ser::Reader::expect_u8", 1, must=["call:msg::magic"], floor=2)
     c.r1("magic-before-length", MH, "grin_core::ser::Reader::expect_u8", sink="grin_core::ser::Reader::read_u64", via=2)
     c.r2("limit-known", MH, ops={"Gt"}, lhs=["call:Reader::read_u64"], rhs=["call:msg::max_msg_size", "op:MulWithOverflow", "const:4"], err="TooLargeReadErr", dominate=False)
-    c.r2("limit-unknown", MH, ops={"Gt"}, lhs=["call:Reader::read_u64"], rhs=["call:msg::default_max_msg_size", "op:MulWithOverflow", "const:4"], err="TooLargeReadErr", dominate=False)
-    c.r2("limit-dominates", MH, ops={"Gt"}, lhs=["call:Reader::read_u64"], rhs=["re:^call:msg::(default_)?max_msg_size$", "op:MulWithOverflow", "const:4"], err="TooLargeReadErr", min_guards=2)
+    c.r2("limit-unknown", MH, ops={"Gt"}, lhs=["call:Reader::read_u64"], rhs=["re:^call:msg::(default_max_msg_size|max_block_size)$", "op:MulWithOverflow", "const:4"], err="TooLargeReadErr", dominate=False)
+    c.r2("limit-dominates", MH, ops={"Gt"}, lhs=["call:Reader::read_u64"], rhs=["re:^call:msg::(default_max_msg_size|max_msg_size|max_block_size)$", "op:MulWithOverflow", "const:4"], err="TooLargeReadErr", min_guards=2)
     c.r2_arg("limit-by-type", MH, M + "max_msg_size", 0, must=["call:FromPrimitive::from_u8", "call:Reader::read_u8"])
     # body reads only with a length taken from an accepted header
     c.r2_arg("body-length", M + "read_body", "re:alloc::vec::from_elem$", 1, must=["arg0.msg_len"])
